@@ -24,9 +24,12 @@ type Prog struct {
 	// Funcs maps "Recv.Name" or "Name" to the declaration.
 	Funcs map[string]*ast.FuncDecl
 	// FuncObj maps a function object to its declaration.
-	FuncObj map[*types.Func]*ast.FuncDecl
-	NFuncs  int
-	Arch    string
+	FuncObj  map[*types.Func]*ast.FuncDecl
+	NFuncs   int
+	normPost bool
+	asMethod map[*ast.FuncDecl]bool // functions standing in for a method of their first parameter
+	Roles    map[string]string      // rule anchor name -> actual declaration name (renamed unexported helpers)
+	Arch     string
 }
 
 // load type-checks the package in dir. Any failure is an error: a check must
@@ -91,6 +94,8 @@ func load(dir, goarch string) (*Prog, error) {
 			}
 		}
 	}
+	pr.normalizeAST()
+	pr.resolveRoles()
 	if pr.NFuncs < 150 {
 		return nil, fmt.Errorf("load %s: only %d functions found (expected the whole library)", dir, pr.NFuncs)
 	}
@@ -322,4 +327,99 @@ func (p *Prog) isPkgFunc(call *ast.CallExpr, name string) bool {
 		return false
 	}
 	return objFuncName(fn) == name
+}
+
+// Unexported helpers are anchors of several rules. When one is renamed or
+// turned from a method into a function, it is found again through its role:
+// the exported entry point that calls it fixes what it is.
+var roleAlias = map[string]string{} // actual name -> the name the rules use
+
+func (p *Prog) lookupFn(name string) *ast.FuncDecl {
+	if fd := p.Funcs[name]; fd != nil {
+		return fd
+	}
+	if actual, ok := p.Roles[name]; ok {
+		return p.Funcs[actual]
+	}
+	return nil
+}
+
+func (p *Prog) resolveRoles() {
+	p.Roles = map[string]string{}
+	for k := range roleAlias {
+		delete(roleAlias, k)
+	}
+	p.asMethod = map[*ast.FuncDecl]bool{}
+	set := func(role, actual string) {
+		if actual != "" && actual != role && p.Funcs[role] == nil && p.Funcs[actual] != nil {
+			p.Roles[role] = actual
+			roleAlias[actual] = role
+			fd := p.Funcs[actual]
+			if dot := strings.Index(role, "."); dot > 0 && fd.Recv == nil && fd.Type.Params != nil && len(fd.Type.Params.List) > 0 && len(fd.Type.Params.List[0].Names) > 0 {
+				// a method turned into a function of its receiver
+				if t := p.Info.Defs[fd.Type.Params.List[0].Names[0]]; t != nil && typeBaseName(t.Type()) == role[:dot] {
+					p.asMethod[fd] = true
+				}
+			}
+		}
+	}
+	// generic: method T.m rewritten as function m(t T, ...)
+	defer func() {
+		for _, role := range methodAnchors {
+			dot := strings.Index(role, ".")
+			if p.Funcs[role] == nil && p.Roles[role] == "" && dot > 0 {
+				set(role, role[dot+1:])
+			}
+		}
+	}()
+	// the add/subtract kernel: the one package function AddWithMode returns a call of, with a constant bool flag
+	if fd := p.Funcs["Decimal.AddWithMode"]; fd != nil && fd.Body != nil && p.Funcs["Decimal.add"] == nil {
+		ast.Inspect(fd.Body, func(n ast.Node) bool {
+			if r, ok := n.(*ast.ReturnStmt); ok && len(r.Results) == 1 {
+				if call, ok := r.Results[0].(*ast.CallExpr); ok && len(call.Args) >= 1 {
+					if _, isBool := p.constBool(call.Args[len(call.Args)-1]); isBool {
+						set("Decimal.add", p.calleeName(call))
+					}
+				}
+			}
+			return true
+		})
+	}
+	// the operand-class printer used by Payload.String
+	if fd := p.Funcs["Payload.String"]; fd != nil && fd.Body != nil && p.Funcs["Payload.argString"] == nil {
+		cands := map[string]bool{}
+		ast.Inspect(fd.Body, func(n ast.Node) bool {
+			if call, ok := n.(*ast.CallExpr); ok {
+				name := p.calleeName(call)
+				if cfd := p.Funcs[name]; cfd != nil && cfd.Body != nil && name != "Payload.String" {
+					if tv, ok := p.Info.Types[call]; ok && tv.Type != nil && tv.Type.String() == "string" {
+						cands[name] = true
+					}
+				}
+			}
+			return true
+		})
+		if len(cands) == 1 {
+			for name := range cands {
+				set("Payload.argString", name)
+			}
+		}
+	}
+	if p.Funcs["Decimal.isOne"] == nil && p.Funcs["isOne"] != nil {
+		set("Decimal.isOne", "isOne")
+	}
+}
+
+// methodAnchors are the unexported methods the rules name directly.
+var methodAnchors = []string{"Decimal.add", "Payload.argString", "Decimal.isOne", "Decimal.decompose", "Decimal.isSpecial", "Decimal.isInf",
+	"digits.fmtE", "digits.fmtF", "digits.round", "Decimal.digits", "Decimal.appendSpecial", "RoundingMode.round"}
+
+func typeBaseName(t types.Type) string {
+	if pt, ok := t.(*types.Pointer); ok {
+		t = pt.Elem()
+	}
+	if n, ok := t.(*types.Named); ok {
+		return n.Obj().Name()
+	}
+	return ""
 }
